@@ -583,6 +583,13 @@ theorem cache_key_covers_request :
     queryTypes.all (fun q => q.requestFields.all q.cacheFields.contains &&
       (q.cacheArgs.take 2 == ["q.prom.unsafeURI", "q.Endpoint()"])) = true := by decide
 
+/-- the two ends of a range question enter the cache key to the step, both of them (fix e6e801d: Start used to keep one
+second resolution, so a question with a lookback below the slice size never met its own answer again) -/
+theorem range_key_ends_rounded :
+    ((queryTypes.find? fun q => q.name == "rangeQuery").map (·.cacheArgs)) =
+      some ["q.prom.unsafeURI", "q.Endpoint()", "q.expr", "q.r.Start.Round(q.r.Step).Format(time.RFC3339)",
+            "q.r.End.Round(q.r.Step).Format(time.RFC3339)", "output.HumanizeDuration(q.r.Step)"] := by decide
+
 def expectedProcessJob : List String :=
   ["cache.get", "if-cached{", "return", "}", "isSupported", "if-unsupported{", "return", "}", "ratelimit", "run",
    "if-error{", "return", "apis.disable", "return", "return", "}", "cache.set", "return"]
@@ -650,9 +657,28 @@ theorem stored_answer_survives_sweep (c : Cache) (k v ttl d : Nat) (hd : d ≤ t
     have : dead { now := c.now + d, maxStale := c.maxStale, entries := { key := k, val := v, expires := if ttl > 0 then some (c.now + ttl) else none, lastGet := c.now } :: List.filter (fun e => e.key != k) c.entries, evictions := c.evictions }
         { key := k, val := v, expires := if ttl > 0 then some (c.now + ttl) else none, lastGet := c.now } = false := hlive
     simp [this]
-  simp [look, hfirst]
+  have hnotexp : expired (sweep (advance (put c k v ttl) d))
+      { key := k, val := v, expires := if ttl > 0 then some (c.now + ttl) else none, lastGet := c.now } = false := by
+    simp only [expired, sweep, advance, put]
+    by_cases ht : ttl > 0
+    · simp [ht]; omega
+    · simp [ht]
+  simp [look, hfirst, hnotexp]
+
+/-- **and not longer**: once more than its (positive) ttl has passed the answer is a miss at the very next lookup,
+whether or not a sweep has run in between (before fix 926463a only `gc`, every two minutes, looked at expiry) -/
+theorem expired_answer_is_a_miss (c : Cache) (k v ttl d : Nat) (ht : 0 < ttl) (hd : ttl < d) :
+    (look (advance (put c k v ttl) d) k).2 = none := by
+  have hfind : find (advance (put c k v ttl) d) k =
+      some { key := k, val := v, expires := some (c.now + ttl), lastGet := c.now } := by
+    simp [find, advance, put, ht]
+  have hexp : expired (advance (put c k v ttl) d) { key := k, val := v, expires := some (c.now + ttl), lastGet := c.now } = true := by
+    simp only [expired, advance, put]; simp; omega
+  simp [look, hfind, hexp]
 
 /-- non-vacuity, and the two ways an entry dies -/
+example : (look (advance (put (empty 100 0) 7 42 50) 51) 7).2 = none := by decide
+example : (look (advance (put (empty 100 0) 7 42 50) 50) 7).2 = some 42 := by decide
 example : (look (sweep (advance (put (empty 100 0) 7 42 50) 50)) 7).2 = some 42 := by decide
 example : (look (sweep (advance (put (empty 100 0) 7 42 50) 51)) 7).2 = none := by decide
 example : (look (sweep (advance (put (empty 100 0) 7 42 0) 100)) 7).2 = none := by decide
